@@ -267,6 +267,10 @@ def _short(ids, spec):
 
 class C08(Prop):
     id = 'C08'
+    registered = True
+    technique = 'exhaustive small pattern pool + Hypothesis pattern lists vs. algebraic spec; metamorphic laws; end-to-end generated worlds with -t/-m/--layer/legacy filters'
+    level_text = 'build_filtering_func is compared pointwise with the three-line spec over generated pattern lists and names, with permutation/duplication invariance and the two monotonicity laws; end to end the executed tests, imported modules and layers run of generated worlds must equal what the spec selects.'
+    level_note = 'Trusts re.search as matcher; empty pattern lists (never fed by the runner) are not asserted.'
     rule = ('func: pattern lists from a small regex grammar (literals, anchors, alternation, repetition, empty, '
             'duplicates, "!"-prefixed, "!" alone) x names as fed by the runner (test str, dotted module, layer '
             'name); exhaustive over lists of <=3 patterns from a 12-pattern pool x negation masks. e2e: generated '
